@@ -36,11 +36,17 @@ theorem consistent_setIface (s : FuncSt) (i : Iface) (p : W64) : Consistent (s.s
   · exact consistent_redirectTo s _ p (by decide)
 
 theorem consistent_genBB (s : FuncSt) (p : W64) : Consistent (s.genBB p) := by
-  intro a ha
-  rw [genBB_addr] at ha
-  simp only [FuncSt.genBB]
-  rw [redirectTo_some s _ _ a ha]
-  exact ⟨thunkTarget_redirect a p, getThunkAddr_redirect a p, length_redirect a p, fun h => by simp at h⟩
+  unfold FuncSt.genBB
+  split
+  · next c hc =>
+    intro a ha
+    rw [redirectTo_addr] at ha
+    rw [redirectTo_some s _ _ a ha]
+    exact ⟨thunkTarget_redirect a c, getThunkAddr_redirect a c, length_redirect a c, fun _ => hc⟩
+  · intro a ha
+    have ha' : s.addr = some a := by simpa [redirectTo_addr] using ha
+    rw [redirectTo_some s _ _ a ha']
+    exact ⟨thunkTarget_redirect a p, getThunkAddr_redirect a p, length_redirect a p, fun h => by simp at h⟩
 
 theorem consistent_load (s : FuncSt) (u fr : W64) : Consistent (s.load u fr) := by
   intro a ha
